@@ -485,7 +485,7 @@ def generate(repo):
         tr = RTr(fn, env, 'rat', consts)
         body = tr.expr(im.func.value)
         marks = [st for st in fn.body if isinstance(st, ast.Assign) and ast.unparse(st.targets[0]) == 'im[mask]']
-        if len(marks) != 1 or ast.unparse(find_assign(fn, 'mask')) != 'np.isnan(phase)':
+        if len(marks) != 1 or ast.unparse(find_assign(fn, 'mask')).replace('truenp.', 'np.') not in ('np.isnan(phase)', '~np.isfinite(phase)', 'phase != phase'):
             raise Untranslatable('invalid samples are not marked through im[mask] with mask = isnan(phase)')
         tr2 = RTr(fn, {}, 'int', consts)
         return (f'def zygoWritePre (r32 : Rat → Rat) (x wvl : Rat) : Rat := {body}\n'
@@ -645,7 +645,7 @@ def generate(repo):
         from fractions import Fraction
         fr = Fraction(wvl)
         marks = [st for st in w.body if isinstance(st, ast.Assign) and ast.unparse(st.targets[0]) == 'array[NDA_PIX]']
-        if len(marks) != 1 or ast.unparse(find_assign(w, 'NDA_PIX')) != 'np.isnan(array)':
+        if len(marks) != 1 or ast.unparse(find_assign(w, 'NDA_PIX')).replace('truenp.', 'np.') not in ('np.isnan(array)', '~np.isfinite(array)', 'array != array'):
             raise Untranslatable('invalid samples not marked via array[NDA_PIX]')
         wn = pyeval(marks[0].value, consts)
         r = get_def(io, 'read_codev_gridint')
@@ -891,7 +891,7 @@ def generate(repo):
         if len(augs) != 1 or not isinstance(augs[0].op, ast.Mult):
             raise Untranslatable('__init__ does not rescale the header wavelength once')
         gets = [ast.unparse(v) for v in find_assigns(init, 'wavelength')]
-        if "meta.get('wavelength', None)" not in gets:
+        if not any(x in gets for x in ("meta.get('wavelength', None)", "meta.get('wavelength')", "meta['wavelength']")):
             raise Untranslatable('__init__ does not take the wavelength from meta')
         wvr = Tr({'wavelength': 'w'}, 'rat').expr(ast.BinOp(left=ast.Name(id='wavelength', ctx=ast.Load()), op=ast.Mult(), right=augs[0].value))
         sv = get_def(ifg, 'Interferogram.save_zygo_dat')
